@@ -94,6 +94,22 @@ def plan(tier):
     bounds["full_vocabulary"] = {"documents": len(dnav), "paths": len(pnav),
                                  "vocabulary": len(vfull),
                                  "navigators": len(navs)}
+    # numbers of equal value and different type side by side (5 / 5.0), asked
+    # for in either spelling: what an earlier element or query made of one
+    # must not decide the other
+    dtw = [("l", (5.0, 5)), ("l", (5, 5.0)), ("l", (2, 2.0, "2", 5)),
+           ("m", (("a", 2), ("b", 2.0))), ("m", (("a", ("l", (5, 2.0))),
+                                                ("b", ("l", (5.0, 2))))),
+           ("l", (("m", (("a", 5),)), ("m", (("a", 5.0),))))]
+    stw = [("search", attr, op, term, inv) for attr in (".", "a")
+           for op in ("=", "<", ">", "<=", ">=") for term in ("5", "5.0", "2",
+                                                              "2.0")
+           for inv in (False, True)]
+    ptw = [(s_,) for s_ in stw] + [(n, s_) for n in (("key", "a"), ("all",))
+                                  for s_ in stw]
+    EXTRA.append((dtw, [(p, paths.render(p, "."), paths.render(p, "/"))
+                        for p in ptw]))
+    bounds["numeric_twins"] = {"documents": len(dtw), "paths": len(ptw)}
     if tier != "quick":
         # deeper slices of the space on smaller sub-corpora
         # (a stride of the 4-node documents keeps the tier near 40 minutes:
